@@ -26,7 +26,7 @@ PROPS["C18"]["tolerances"] = {
 }
 
 PROPS["C18"]["level_text"] = (
-    "Theorems over the executed models (Props/C18.lean, 99 theorems; constants and alphabets from Gen/Grid, Gen/OSGBC, re-extracted each run). "
+    "Theorems over the executed models (Props/C18.lean, 101 theorems; constants and alphabets from Gen/Grid, Gen/OSGBC, re-extracted each run). "
     "ALL FOUR CODECS, integer level, every cell / precision / string: table look-ups invert the tables and never match NUL (lookup_nul, *_lookup, tables_wf); "
     "decode∘encode (gars_decode_encode, geohash_decode_encode/46, georef_decode_encode_tile/_degree/_long, osgb_decode_encode); prefix law across ALL precisions "
     "(gars_prefix, geohash_prefix, georef_prefix_coarse + georef_prefix, osgb_prefix). "
@@ -51,10 +51,13 @@ PROPS["C18"]["level_text"] = (
     "geohash_accept_iff), gars_reverse_val / georef_reverse_val (one correctly rounded division; exact for GARS precisions 0, 1 and Georef tiles and degree cells). "
     "Correspondence only (every run, exact comparison in Lean): every implementation output vs the model and vs the exact containing cell; OSGB decoder values "
     "(required exact down to 1 m, 2^−46 beyond); helper functions bit for bit; OSGB::Forward/Reverse = projection ± false origin bit for bit. "
-    "NOT PROVED: the value of OSGB ReadGridReference as a theorem (exactness down to 1 m and the error of the six rounded digit steps beyond are checked on the "
-    "implementation, not proved); re-encode law through the floating values (GridReference(ReadGridReference(s)) = s is proved on the integer level and checked by "
-    "the harness oracle); acceptance characterisations of GARS/Georef Reverse as iff-theorems (decode∘encode + model correspondence only); the accuracy of the "
-    "transverse Mercator projection itself (property C06).")
+    "END TO END DOWN TO 1 m: osgb_reverse_exact_le5 (for every accepted string of precision ≤ 5 the binary64 corner and centre returned by ReadGridReference are "
+    "exactly 10^5·xh + X·10^(5−p) (+ 10^(5−p)/2): the accumulation loop involves no rounding) and osgb_reencode_le5 (GridReference(ReadGridReference(s, centerp = true), "
+    "prec) = s upper-cased with white space removed, through the floating values: range check passes, tile index, offset and digits of the centre are exact). "
+    "NOT PROVED: for precisions 6..11 the value of ReadGridReference (six further rounded divisions/products/sums; checked on the implementation against the exact "
+    "rational within 2^−46 relative) and the re-encode law through those values (proved on the integer level, osgb_reencode; checked by the harness oracle); "
+    "acceptance characterisations of GARS/Georef Reverse as iff-theorems (decode∘encode + model correspondence only); the accuracy of the transverse Mercator "
+    "projection itself (property C06).")
 
 PROPS["C18"]["level_note"] = (
     "alphabets, integer constants of all four classes and the defining integers of the OSGB36 constants regenerated from the sources each run (Gen/Grid, Gen/OSGBC); "
